@@ -785,3 +785,14 @@ package exec
 //@   flag trust_nil_safety
 //@   ensures  panic-is-the-combiners-error: implies(panicked, err != nil && isFatal(err))
 //@   modifies unknown
+
+// ---- C08/C13: what reaches the workers is the frozen compile environment ----
+
+// Session.run freezes, besides its own copy, the copy of the invocation held by every task compiled for it (the
+// copies the executor transmits): this is the callback it runs over the compiled task graph.
+//@ func exec.(*Session).run$2 (task) (err)
+//@   requires task != nil
+//@   ensures  own-tasks-frozen: implies(task.Invocation.Index == inv.Index, !task.Invocation.Env.Writable)
+//@   ensures  others-untouched: implies(task.Invocation.Index != inv.Index, task.Invocation.Env.Writable == old(task.Invocation.Env.Writable))
+//@   ensures  err == nil && task.Invocation.Index == old(task.Invocation.Index) && task.Invocation.Env.Cached == old(task.Invocation.Env.Cached)
+//@   modifies task.Invocation
